@@ -25,5 +25,8 @@ CHECKS = {
  "C11": {"engine": "cxx-sym", "technique": "safety obligations (index in range, no use after free/double free, no uninitialised read, library preconditions) decided by z3 on every path of the ABI scenarios; counterexamples replayed under ASan/UBSan",
          "text": "every vector / buffer access, delete and library precondition met while symbolically executing the scenario sweep is proved in range under the path condition for all data values; a failing obligation is concretised and confirmed in a sanitizer build",
          "note": TRUST + "; shapes <= 3 per axis, int overflow outside the bounds"},
+ "C14": {"engine": "cxx-sym", "technique": "symbolic execution of the init-state section of the ABI + loop-body induction and an exists/forall progress query (z3) for the redistribution loop",
+         "text": "for all real-valued states: 'none' passes the state through, Poisson mode draws each entry with that entry's amount as mean (zero stays zero), redistribution receives/returns the state in the right layout with the script's seed; the correction loop of the redistribution keeps 'non-negative integers, empty cells stay empty, total off by the remaining correction' (induction from an arbitrary invariant state) and from every such state some draw makes progress (termination with probability 1)",
+         "note": TRUST + "; 2-4 cells, one species in the loop-body induction; the redistribution function is replaced by its contract in the ABI legs"},
 }
 NOT_APPLICABLE = {}
